@@ -701,7 +701,11 @@ func runHistory(t *testing.T, h *History) (lines []string) {
 			if cancel == "" {
 				cancel = "-"
 			}
-			rs.emit("I\tREQ\t%d\t%d\t%s\t%s\t%s\t%s\t%s", n, op.AtNs, hx(wireMethod(op.Method)), hx(shownURL(op)), glue, encHdrList(op.Hdr), cancel)
+			shownHdr := op.Hdr
+			if op.RawKey && !(op.NilHeader && len(op.Hdr) == 0) {
+				shownHdr = append(append(Hdr{}, op.Hdr...), [2]string{"x-trace-raw", "1"}) // under the key it has in the map
+			}
+			rs.emit("I\tREQ\t%d\t%d\t%s\t%s\t%s\t%s\t%s", n, op.AtNs, hx(wireMethod(op.Method)), hx(shownURL(op)), glue, encHdrList(shownHdr), cancel)
 			// glue: the normal form of the q-value classes (Accept*, TE), which the model does not define;
 			// it is what internal.NewVaryHeaderNormalizer makes of the request's combined field value
 			for _, f := range qClassFields {
@@ -846,6 +850,9 @@ func runHistory(t *testing.T, h *History) (lines []string) {
 			}
 			for _, p := range op.Hdr {
 				req.Header.Add(p[0], p[1])
+			}
+			if op.RawKey && req.Header != nil {
+				req.Header["x-trace-raw"] = []string{"1"}
 			}
 			before := snap(req)
 			g := goid()
